@@ -392,7 +392,10 @@ func handleStream(svr interface{}, serviceName string, desc *grpc.StreamDesc, st
 		sts := internal.ServerTransportStream{Name: info.FullMethod, Stream: str}
 		str.ctx = grpc.NewContextWithServerTransportStream(ctx, &sts)
 		if streamInt != nil {
-			err = streamInt(svr, str, info, desc.Handler)
+			// per-RPC information: an interceptor may modify what it is
+			// given, which must not reach other calls
+			callInfo := *info
+			err = streamInt(svr, str, &callInfo, desc.Handler)
 		} else {
 			err = desc.Handler(svr, str)
 		}
